@@ -78,7 +78,9 @@ def build_harness(bins):
     lock = os.path.join(HARNESS, "Cargo.lock")
     if not os.path.exists(lock):
         subprocess.run(["cp", "/repo/Cargo.lock", lock], check=True)
-    cmd = ["cargo", "build", "--offline"] + sum([["--bin", b] for b in bins], [])
+    # (the target directory is passed explicitly so that a copy of /verif elsewhere builds into,
+    # and runs from, its own cache rather than the path written in harness/.cargo/config.toml)
+    cmd = ["cargo", "build", "--offline", "--target-dir", TARGET] + sum([["--bin", b] for b in bins], [])
     # cargo serialises concurrent builds on the target dir lock by itself
     rc, out = sh(cmd, cwd=HARNESS, timeout=3000)
     if rc != 0:
